@@ -8,6 +8,16 @@ CLAIMED = {
    note="Trusted: Coq kernel; the hand-written transliteration (validated by the differential run, not proved against C); 'parses to an equal tree' is checked by execution with python's json as the independent parser, not proved; C locale.",
    technique="Coq proof (refinement of an index-level buffer model to a list function + token-level induction) + differential correspondence",
    design="DESIGN.md section 6, C13"),
+ 'C12': dict(
+   text="Coq theorems over the value-level transliteration of cJSON_Compare (CompareDefs.v) with IEEE binary64 doubles as Coq SpecFloat: the recursion bound always suffices (C12_total); for all pairs of trees with distinct keys per object (distinct after ASCII folding when case-insensitive) the result is true exactly when the declarative relation sem_eq holds (C12_spec); symmetric, reflexive (same pointer: any valid tree; equal copy: NaN-free), flags ignored, NULL/invalid give false (C12_symmetric, C12_reflexive, C12_flags_ignored, C12_null_invalid_false); compare_double is symmetric, reflexive off NaN and never equates finite with non-finite (C12_num), with the pinned defect re-derived (C12_num_refuted_pinned). Tied to /repo by running the extracted model and the ASan build of cJSON.c on the same generated pairs (single-point mutations, permutations, case variants, number grid) every run; purity (arguments unmodified) is observed on the implementation by dumping both trees before and after.",
+   note="Trusted: Coq kernel; hand-written transliteration validated by the differential run; python's float arithmetic in the verdict oracle; C locale tolower.",
+   technique="Coq proof (structural induction over trees, SpecFloat case analysis) + differential correspondence",
+   design="DESIGN.md section 6, C12"),
+ 'C15': dict(
+   text="Coq theorems over the value-level transliteration of the JSON Pointer functions of cJSON_Utils.c (PointerDefs.v): for every document and every C string the case-sensitive lookup returns exactly the node RFC 6901 designates, written separately from the RFC (C15_resolve, including the size_t overflow guard of the index loop); for every node inside a tree with distinct present keys the constructed pointer resolves back to that node (C15_construct) and escaping inverts unescaping (C15_escape). Tied to /repo by running the extracted model and the ASan/guard-page build of cJSON_Utils.c on documents over the key alphabet {empty,/,~,~0,~1,a/b,0,01,...} x exhaustive short pointer strings + long indices, and all (root,node) pairs, every run.",
+   note="Trusted: Coq kernel; hand-written transliteration validated by the differential run; documents are modelled at value level (sibling chain flattened to a list), so pointer-chasing itself is covered by the correspondence run, not the proof.",
+   technique="Coq proof (induction over pointer tokens and trees against an RFC 6901 reference evaluator) + differential correspondence",
+   design="DESIGN.md section 6, C15"),
 }
 props = [json.loads(l) for l in open(os.path.join(V, 'properties.jsonl'))]
 m = json.load(open(os.path.join(V, 'MANIFEST.json')))
